@@ -38,6 +38,14 @@ using namespace pmb;
 #define FAM "z5/introws-removable/map/noswaps/plain"
 #define ARGS false, true, true, true, true, false, false
 #define HEAP_OK 0
+#elif PMB_FAMILY == 10
+#define FAM "z5/setrows/vector/noswaps/plain"
+#define ARGS false, true, false, false, false, false, false
+#define HEAP_OK 0
+#elif PMB_FAMILY == 11
+#define FAM "z5/setrows-removable/map/swaps/plain"
+#define ARGS false, true, false, true, true, true, false
+#define HEAP_OK 0
 #endif
 
 #define REG(CT) namespace { void run_##CT(const sim::Plan& p, sim::Run& r, Obs& o) { exec_config<Opt<Column_types::CT, ARGS>>(p, r, o, std::string(FAM) + "/" #CT); } Register reg_##CT({FAM, std::string(FAM) + "/" #CT, run_##CT}); }
